@@ -318,6 +318,10 @@ func runSeq(run *ev.Run, idx int, nops int) (*violation, *seqState) {
 	}
 	s.cap = 1 + r.Intn(8)
 	s.mp = mempool.New(s.cap, false, nil)
+	if r.Intn(2) == 0 {
+		// as network.Server does: stale items are handed to a resend callback
+		s.mp.SetResendThreshold(uint32(1+r.Intn(3)), func(*transaction.Transaction, any) {})
+	}
 	s.log = append(s.log, fmt.Sprintf("capacity=%d balances=%v deposits=%v", s.cap, s.f.bal, s.f.dep))
 	for op := 0; op < nops; op++ {
 		var lastOp string
